@@ -25,6 +25,8 @@ pub enum Target {
 	Hash,
 	/// schema-directed like `Capture`, but each node may use an alternative serde hint (seeded)
 	AltHints(u64),
+	/// `Blind`, except that every string / bytes leaf is REFUSED with serde's stock error quoting the value
+	Reject,
 }
 impl Target {
 	pub fn capture() -> Self {
@@ -39,6 +41,7 @@ impl Target {
 			Target::Masked(_) => "masked",
 			Target::Ignored => "ignored",
 			Target::Blind => "blind",
+			Target::Reject => "reject",
 			Target::Hash => "hash",
 			Target::AltHints(_) => "alt-hints",
 		}
@@ -111,6 +114,19 @@ where
 		}
 		Target::Blind => {
 			let c = Cell::new(0);
+			let r = Blind { callbacks: &c }.deserialize(d);
+			(r, c.get(), 0)
+		}
+		Target::Reject => {
+			let c = Cell::new(0);
+			struct Reset;
+			impl Drop for Reset {
+				fn drop(&mut self) {
+					crate::capture::BLIND_REJECTS_LEAVES.with(|b| b.set(false));
+				}
+			}
+			crate::capture::BLIND_REJECTS_LEAVES.with(|b| b.set(true));
+			let _reset = Reset;
 			let r = Blind { callbacks: &c }.deserialize(d);
 			(r, c.get(), 0)
 		}
